@@ -3657,6 +3657,135 @@ where
     }
 }
 
+// verification hooks (read-only; compiled only with the `verif-hooks` feature)
+
+#[cfg(feature = "verif-hooks")]
+impl<Role, PacketIdType> GenericConnection<Role, PacketIdType>
+where
+    Role: RoleType,
+    PacketIdType: IsPacketId,
+{
+    /// Read-only snapshot of the whole connection state as (field name, canonical text) pairs.
+    pub fn verif_state(&self) -> Vec<(&'static str, String)> {
+        use alloc::format;
+        fn sorted<T: IsPacketId>(s: &HashSet<T>) -> String {
+            let mut v: Vec<u64> = s.iter().map(|x| x.to_u64().unwrap()).collect();
+            v.sort_unstable();
+            format!("{v:?}")
+        }
+        let hex = |b: &[u8]| -> String {
+            let mut s = String::with_capacity(b.len() * 2);
+            for x in b {
+                s.push_str(&format!("{x:02x}"));
+            }
+            s
+        };
+        let mut out: Vec<(&'static str, String)> = Vec::new();
+        out.push(("protocol_version", format!("{:?}", self.protocol_version)));
+        out.push(("status", format!("{:?}", self.status)));
+        out.push(("is_client", format!("{}", self.is_client)));
+        out.push(("need_store", format!("{}", self.need_store)));
+        out.push(("offline_publish", format!("{}", self.offline_publish)));
+        out.push(("auto_pub_response", format!("{}", self.auto_pub_response)));
+        out.push(("auto_ping_response", format!("{}", self.auto_ping_response)));
+        out.push((
+            "auto_map_topic_alias_send",
+            format!("{}", self.auto_map_topic_alias_send),
+        ));
+        out.push((
+            "auto_replace_topic_alias_send",
+            format!("{}", self.auto_replace_topic_alias_send),
+        ));
+        let free: Vec<(u64, u64)> = self
+            .pid_man
+            .verif_intervals()
+            .into_iter()
+            .map(|(l, h)| (l.to_u64().unwrap(), h.to_u64().unwrap()))
+            .collect();
+        out.push(("pid_free", format!("{free:?}")));
+        out.push(("pid_suback", sorted(&self.pid_suback)));
+        out.push(("pid_unsuback", sorted(&self.pid_unsuback)));
+        out.push(("pid_puback", sorted(&self.pid_puback)));
+        out.push(("pid_pubrec", sorted(&self.pid_pubrec)));
+        out.push(("pid_pubcomp", sorted(&self.pid_pubcomp)));
+        let stored: Vec<String> = self
+            .store
+            .get_stored()
+            .iter()
+            .map(|p| {
+                format!(
+                    "{}:{}",
+                    p.packet_id().to_u64().unwrap(),
+                    hex(&p.to_continuous_buffer())
+                )
+            })
+            .collect();
+        out.push(("store", format!("{stored:?}")));
+        out.push(("qos2_publish_handled", sorted(&self.qos2_publish_handled)));
+        out.push(("publish_recv", sorted(&self.publish_recv)));
+        out.push((
+            "topic_alias_send",
+            match &self.topic_alias_send {
+                Some(t) => format!("{:?}", t.verif_dump()),
+                None => String::from("None"),
+            },
+        ));
+        out.push((
+            "topic_alias_recv",
+            match &self.topic_alias_recv {
+                Some(t) => format!("{:?}", t.verif_dump()),
+                None => String::from("None"),
+            },
+        ));
+        out.push(("publish_send_max", format!("{:?}", self.publish_send_max)));
+        out.push(("publish_recv_max", format!("{:?}", self.publish_recv_max)));
+        out.push(("publish_send_count", format!("{}", self.publish_send_count)));
+        out.push((
+            "maximum_packet_size_send",
+            format!("{}", self.maximum_packet_size_send),
+        ));
+        out.push((
+            "maximum_packet_size_recv",
+            format!("{}", self.maximum_packet_size_recv),
+        ));
+        out.push((
+            "pingreq_user_send_interval_ms",
+            format!("{:?}", self.pingreq_user_send_interval_ms),
+        ));
+        out.push(("pingreq_keep_alive_ms", format!("{}", self.pingreq_keep_alive_ms)));
+        out.push((
+            "pingreq_server_keep_alive_ms",
+            format!("{:?}", self.pingreq_server_keep_alive_ms),
+        ));
+        out.push((
+            "pingreq_recv_timeout_ms",
+            format!("{}", self.pingreq_recv_timeout_ms),
+        ));
+        out.push((
+            "pingresp_recv_timeout_ms",
+            format!("{}", self.pingresp_recv_timeout_ms),
+        ));
+        out.push(("pingreq_send_set", format!("{}", self.pingreq_send_set)));
+        out.push(("pingreq_recv_set", format!("{}", self.pingreq_recv_set)));
+        out.push(("pingresp_recv_set", format!("{}", self.pingresp_recv_set)));
+        let (st, hdr, missing, body) = self.packet_builder.verif_partial();
+        out.push((
+            "packet_builder",
+            format!("{st}:{}:{missing}:{}", hex(&hdr), hex(&body)),
+        ));
+        out
+    }
+
+    /// Free packet id intervals, widened to u64
+    pub fn verif_free_id_intervals(&self) -> Vec<(u64, u64)> {
+        self.pid_man
+            .verif_intervals()
+            .into_iter()
+            .map(|(l, h)| (l.to_u64().unwrap(), h.to_u64().unwrap()))
+            .collect()
+    }
+}
+
 // tests
 
 #[cfg(test)]
